@@ -334,6 +334,8 @@ DEFAULT_TLS_SPEC = dict(
     after_sh=None,         # None | int: length of a message body following SH in the same record when sh_ext == none
     hs_secrets=True, ccs13=True, pad13=0, tickets=0, cert_len=300, ske=False,
     history=[[0, 20, 0], [1, 40, 0]],   # [dir (0 client, 1 server), plaintext length, padding amount]
+    sh13_exts=0,           # order / presence of supported_versions, key_share, pre_shared_key in a TLS 1.3 ServerHello (0..4)
+    client_auth=False,     # CertificateRequest in the server's flight; Certificate / CertificateVerify in the client's
     half_rtt=None,         # [[len, pad], ...] TLS 1.3: server application records right after the server Finished, before the client's (0.5-RTT)
     false_start=None,      # [[len, pad], ...] client application records sent right after the client Finished (full handshake, <= TLS 1.2)
     close=0,               # bit 0: client ends with close_notify, bit 1: server does (after all application data of both directions)
@@ -397,7 +399,9 @@ class TlsConn:
         # ---- ServerHello
         sh_ext = b""
         if version == TLS13:
-            sh_ext += ext(0x002B, b"\x03\x04") + ext(0x0033, struct.pack("!HH", 29, 32) + rbytes(rnd, 32))
+            sv, ks, psk = ext(0x002B, b"\x03\x04"), ext(0x0033, struct.pack("!HH", 29, 32) + rbytes(rnd, 32)), ext(0x0029, b"\x00\x00")
+            # the extensions of a TLS 1.3 ServerHello come in any order; pre_shared_key is there on resumption
+            sh_ext += [sv + ks, ks + sv, ks + psk + sv, psk + sv + ks, sv + ks + psk][sp.get("sh13_exts", 0) % 5]
         else:
             if self.etm:
                 sh_ext += ext(0x0016, b"")
@@ -484,10 +488,18 @@ class TlsConn:
             msgs.append(("CERT", hs(11, rbytes(rnd, sp["cert_len"]))))
             if sp["ske"]:
                 msgs.append(("SKE", hs(12, rbytes(rnd, 70))))
+            if sp.get("client_auth"):
+                msgs.append(("CR", hs(13, rbytes(rnd, 24))))
             msgs.append(("SHD", hs(14, b"")))
             for t, m in _frag(msgs, g, sp.get("hs_frag", 0)):
                 self._plain(True, 0x16, m, rv, t)
-            self._plain(False, 0x16, hs(16, rbytes(rnd, 130)), rv, "CKE")
+            if sp.get("client_auth"):
+                # client authentication: Certificate, ClientKeyExchange, CertificateVerify - grouped / fragmented like the server's flight
+                cmsgs = [("CCERT", hs(11, rbytes(rnd, max(10, sp["cert_len"] // 2)))), ("CKE", hs(16, rbytes(rnd, 130))), ("CCV", hs(15, rbytes(rnd, 70)))]
+                for t, m in _frag(cmsgs, g >> 2, sp.get("hs_frag", 0)):
+                    self._plain(False, 0x16, m, rv, t)
+            else:
+                self._plain(False, 0x16, hs(16, rbytes(rnd, 130)), rv, "CKE")
             self._plain(False, 0x14, b"\x01", rv, "CCS")
             self._enc(False, cw.protect(0x16, self._fin(False, fin_len)), "FIN")
             for ln, pad in sp.get("false_start") or []:
@@ -517,8 +529,8 @@ class TlsConn:
         sw = WriteState13(s, sec["shs"])
         cw = WriteState13(s, sec["chs"])
         self.w = {False: cw, True: sw}
-        msgs = [("EE", hs(8, b"\x00\x00")), ("CERT", hs(11, rbytes(rnd, sp["cert_len"]))), ("CV", hs(15, rbytes(rnd, 70))),
-                ("FIN", hs(20, rbytes(rnd, hl)))]
+        msgs = [("EE", hs(8, b"\x00\x00"))] + ([("CR", hs(13, rbytes(rnd, 24)))] if sp.get("client_auth") else []) + \
+            [("CERT", hs(11, rbytes(rnd, sp["cert_len"]))), ("CV", hs(15, rbytes(rnd, 70))), ("FIN", hs(20, rbytes(rnd, hl)))]
         for t, m in _frag(msgs, self.grouping, sp.get("hs_frag", 0)):
             self._enc(True, sw.protect(0x16, m, self.pad13), t)
         sw.set_secret(sec["sap"])
@@ -527,7 +539,11 @@ class TlsConn:
             self.app(True, rbytes(rnd, ln), pad)
         if sp["ccs13"]:
             self._plain(False, 0x14, b"\x01", rv, "CCS")
-        self._enc(False, cw.protect(0x16, hs(20, rbytes(rnd, hl)), self.pad13), "FIN")
+        cmsgs = [("FIN", hs(20, rbytes(rnd, hl)))]
+        if sp.get("client_auth"):
+            cmsgs = [("CCERT", hs(11, rbytes(rnd, max(10, sp["cert_len"] // 2)))), ("CCV", hs(15, rbytes(rnd, 70)))] + cmsgs
+        for t, m in _frag(cmsgs, self.grouping >> 2, sp.get("hs_frag", 0)):
+            self._enc(False, cw.protect(0x16, m, self.pad13), t)
         cw.set_secret(sec["cap"])
 
     def app(self, srv, data, pad=0):
